@@ -491,6 +491,36 @@ func (g *vfE3Gen) stream() (s []byte, class string) {
 		g.count("stream:garbage-nomagic")
 		return g.r.Bytes(g.r.Intn(64)), "garbage"
 	}
+	if c := g.r.Intn(6); c == 0 {
+		// consumer scenario: (IDENTIFY) SUB <valid> <valid>, then the commands of a subscribed connection
+		g.count("stream:consumer")
+		s = append(s, magic...)
+		if g.r.Intn(3) == 0 {
+			body := []byte(`{"heartbeat_interval":` + g.pick("1000", "0", "-1", "5000") + `}`)
+			g.json[string(body)] = true
+			s = append(append(append(s, []byte("IDENTIFY\n")...), vfE3BE32(uint32(len(body)))...), body...)
+		}
+		s = append(s, []byte("SUB "+vfE3ValidNames[g.r.Intn(len(vfE3ValidNames))]+" "+vfE3ValidNames[g.r.Intn(len(vfE3ValidNames))]+"\n")...)
+		o := g.v.n.getOpts()
+		for k := 1 + g.r.Intn(5); k > 0; k-- {
+			switch g.r.Intn(8) {
+			case 0, 1, 2:
+				s = append(s, []byte("RDY "+g.number(o.MaxRdyCount)+g.eol())...)
+			case 3:
+				s = append(s, []byte("FIN "+g.msgID()+g.eol())...)
+			case 4:
+				s = append(s, []byte("REQ "+g.msgID()+" "+g.number(int64(o.MaxReqTimeout/1e6))+g.eol())...)
+			case 5:
+				s = append(s, []byte("TOUCH "+g.msgID()+g.eol())...)
+			case 6:
+				s = append(s, []byte("CLS"+g.eol())...)
+			default:
+				b, _, _ := g.command()
+				s = append(s, b...)
+			}
+		}
+		return s, "consumer"
+	}
 	s = append(s, magic...)
 	n := 1 + g.r.Intn(7)
 	for i := 0; i < n; i++ {
